@@ -59,7 +59,13 @@ pub trait RollingFinal<T>: Vec1View<T> {
             window,
             |arr| {
                 let acc_func = |acc: f64, (v, c): (T, f64)| acc + v.cast() * c;
-                arr.titer().zip(coef.titer()).fold(0., acc_func).cast()
+                // align from the most recent element: during warm-up the window is
+                // shorter than `coef` and must use the coefficients of the smallest lags
+                arr.titer()
+                    .rev()
+                    .zip(coef.titer().rev())
+                    .fold(0., acc_func)
+                    .cast()
             },
             out,
         )
